@@ -228,3 +228,27 @@ SPECS["C17"] = {
     "assumptions": ["alphabets as stated", "working directory /w for relative roots", "ReadFile stub"],
     "outside": ["symlinks", "Windows volume names", "paths longer than the bound"],
 }
+
+_C16 = ["interpreter/common.go", "interpreter/c16.go"]
+SPECS["C16"] = {
+    "explanation": "Real HandleInput on command lines assembled from symbolic choices (12 command words x 0..2/3 arguments from 16 representative strings "
+                   "or 2 arbitrary bytes) in four concretely constructed debugger states (fresh, finished run, thread suspended at top level, suspended "
+                   "inside a call); every implicit panic site is an obligation; afterwards the debugger lock must be free and status must answer.",
+    "level_text": "bounded: all command lines in the stated vocabulary, 1 (quick) or 2 (thorough) commands in sequence, 4 states: no panic, no lock left held, status still answers",
+    "level_note": "trusts go/ssa, gosym (sync model incl. RWMutex/Cond), z3; JSON-encodability of results is not checked (encoding/json is reflection)",
+    "harnesses": [
+        {"name": "H1-state-%d" % k, "pkg": "interpreter", "files": _C16, "fn": "VerifC16Total",
+         "what": "state %d (%s), one command line with 0..2 arguments" % (k, n), "reach": ["state-built", "command-returned", "status-answered"],
+         "quick": {"params": {"STATE": k, "NCMD": 1, "MAXARGS": 2}, "unwind": 40, "wall_s": 600},
+         "thorough": {"params": {"STATE": k, "NCMD": 1, "MAXARGS": 3}, "unwind": 40, "wall_s": 2400}}
+        for k, n in enumerate(["fresh", "finished run", "suspended at top level", "suspended inside a call"])
+    ] + [
+        {"name": "H2-two-commands-state-%d" % k, "pkg": "interpreter", "files": _C16, "fn": "VerifC16Total",
+         "what": "state %d, two command lines with 0..1 arguments each" % k, "reach": ["state-built", "command-returned", "status-answered"],
+         "quick": None,
+         "thorough": {"params": {"STATE": k, "NCMD": 2, "MAXARGS": 1}, "unwind": 40, "wall_s": 2400}}
+        for k in (0, 2, 3)
+    ],
+    "assumptions": ["argument vocabulary as listed in the harness", "program thread id 1"],
+    "outside": ["telnet debug server / CLI", "JSON encoding of results", "more than 2 commands in sequence"],
+}
